@@ -592,6 +592,72 @@ pub fn offer_bytes(ctx: &Ctx, bytes: &[u8]) -> &'static str {
 
 use in_toto::interchange::DataInterchange;
 
+/// C14, sizes: documents that are extremely DEEP (containers nested 200 .. 100 000 times, bare or in the place of a
+/// member of an otherwise well-formed block) or extremely LONG (a 4 MiB string, a 200 000-element array) are offered
+/// to every parser and, as a link file, to verification.  Run in a process of its own: a stack overflow ends the
+/// process, and that is what the caller observes.  k = usize::MAX: all inputs; otherwise only the k-th.
+pub fn deep_inputs() -> Vec<(String, Vec<u8>)> {
+    let mut out: Vec<(String, Vec<u8>)> = vec![];
+    for depth in [129usize, 200, 5_000, 100_000] {
+        let arr = "[".repeat(depth);
+        let obj = "{\"a\":".repeat(depth);
+        let closed = format!("{}{}", "[".repeat(depth), "]".repeat(depth));
+        out.push((format!("open_arrays_{depth}"), arr.clone().into_bytes()));
+        out.push((format!("open_objects_{depth}"), obj.clone().into_bytes()));
+        out.push((format!("closed_arrays_{depth}"), closed.clone().into_bytes()));
+        out.push((format!("block_signed_{depth}"), format!("{{\"signatures\":[],\"signed\":{closed}}}").into_bytes()));
+        out.push((format!("link_env_{depth}"), format!("{{\"signatures\":[],\"signed\":{{\"_type\":\"link\",\"name\":\"s1\",\"materials\":{{}},\"products\":{{}},\"command\":[],\"byproducts\":{{\"x\":{closed}}},\"environment\":{closed}}}}}").into_bytes()));
+        out.push((format!("layout_readme_{depth}"), format!("{{\"signatures\":[],\"signed\":{{\"_type\":\"layout\",\"expires\":\"2030-01-01T00:00:00Z\",\"readme\":{closed},\"keys\":{{}},\"steps\":{obj}1,\"inspect\":[]}}}}").into_bytes()));
+    }
+    let long = "x".repeat(4 << 20);
+    out.push(("long_string".into(), format!("\"{long}\"").into_bytes()));
+    out.push(("long_name".into(), format!("{{\"signatures\":[],\"signed\":{{\"_type\":\"link\",\"name\":\"{long}\",\"materials\":{{}},\"products\":{{}},\"command\":[],\"byproducts\":{{}},\"environment\":null}}}}").into_bytes()));
+    out.push(("wide_array".into(), format!("[{}0]", "0,".repeat(200_000)).into_bytes()));
+    out.push(("wide_command".into(), format!("{{\"signatures\":[],\"signed\":{{\"_type\":\"link\",\"name\":\"s1\",\"materials\":{{}},\"products\":{{}},\"command\":[{}\"a\"],\"byproducts\":{{}},\"environment\":null}}}}", "\"a\",".repeat(200_000)).into_bytes()));
+    out.push(("many_signatures".into(), format!("{{\"signatures\":[{}{{\"keyid\":\"00\",\"sig\":\"00\"}}],\"signed\":{{\"_type\":\"link\",\"name\":\"s1\",\"materials\":{{}},\"products\":{{}},\"command\":[],\"byproducts\":{{}},\"environment\":null}}}}", "{\"keyid\":\"00\",\"sig\":\"00\"},".repeat(50_000)).into_bytes()));
+    out
+}
+
+pub fn deep(k: usize) -> Value {
+    use in_toto::interchange::{DataInterchange, Json, JsonPretty};
+    let ctx = Ctx::new();
+    let layout = ctx.good_layout();
+    let own = ctx.km.idstr("k1")[0..8].to_string();
+    let inputs = deep_inputs();
+    let mut bad = vec![];
+    let mut calls = 0;
+    for (n, (name, bytes)) in inputs.iter().enumerate() {
+        if k != usize::MAX && n != k {
+            continue;
+        }
+        let mut offer = |entry: &str, r: std::result::Result<bool, String>| {
+            calls += 1;
+            if let Err(p) = r {
+                bad.push(json!({"input": name, "entry": entry, "panic": p.chars().take(200).collect::<String>()}));
+            }
+        };
+        offer("Metablock/slice", guarded(|| serde_json::from_slice::<Metablock>(bytes).is_ok()));
+        offer("Metablock/reader", guarded(|| serde_json::from_reader::<_, Metablock>(std::io::Cursor::new(bytes.clone())).is_ok()));
+        offer("MetadataWrapper/try_from_bytes", guarded(|| MetadataWrapper::try_from_bytes(bytes).is_ok()));
+        offer("LayoutMetadata/slice", guarded(|| serde_json::from_slice::<LayoutMetadata>(bytes).is_ok()));
+        offer("LinkMetadata/slice", guarded(|| serde_json::from_slice::<LinkMetadata>(bytes).is_ok()));
+        offer("PublicKey/slice", guarded(|| serde_json::from_slice::<PublicKey>(bytes).is_ok()));
+        offer("Json::from_slice<Value>", guarded(|| Json::from_slice::<Value>(bytes).is_ok()));
+        offer("JsonPretty::from_slice<Metablock>", guarded(|| JsonPretty::from_slice::<Metablock>(bytes).is_ok()));
+        offer("StatementWrapper/slice", guarded(|| serde_json::from_slice::<in_toto::models::StatementWrapper>(bytes).is_ok()));
+        offer("PredicateWrapper/slice", guarded(|| serde_json::from_slice::<in_toto::models::PredicateWrapper>(bytes).is_ok()));
+        // what a parser accepted as a tree goes on to the canonicaliser
+        if let Ok(v) = serde_json::from_slice::<Value>(bytes) {
+            offer("Json::canonicalize", guarded(|| Json::canonicalize(&v).is_ok()));
+            std::mem::forget(v);
+        }
+        let text = String::from_utf8_lossy(bytes).to_string();
+        let r = ctx.verify_with_dir(&layout, &[(format!("s1.{own}.link"), text)]);
+        offer("final_product_verification", if r == "panic" { Err("panic during verification".to_string()) } else { Ok(true) });
+    }
+    json!({"inputs": inputs.len(), "calls": calls, "bad": bad})
+}
+
 /// C17, the link directory as a channel: the BYTES of a genuinely signed link file - as written, padded, with the
 /// replacement character's three bytes exchanged for ill-formed UTF-8, with things before or after the document -
 /// are (a) parsed from the slice and verified against the signer, (b) placed in the link directory of a layout they
